@@ -64,6 +64,22 @@ def rule_modes(chk: Check, model, rid: str):
         con = T.assume(gs, pr, False)
         ok = con[0] == "comp" and T.call_name(con[2]) == "rex.utils.to_connected_graph" and con[3][0][1] == r.attr("self", "_Gs") and T.assume(gs, pr, True) == r.attr("self", "_Gs")
         chk.add(rid, "prune=False attaches non-ancestors", ok, f"graphs given to the supergraph search: {T.show(gs)[:200]}, expected [to_connected_graph(G, ...) for G in self._Gs] iff not prune", chk.loc(fi))
+    # episode i of the networkx graphs (and of the monomorphisms computed from them) is episode i of the windowed graphs: the list is
+    # filled in episode order and never reordered
+    gl = r.attr("self", "_Gs")
+    app = [e for e in r.events if e.kind == "call" and e.name.endswith(".append") and e.recv == gl and e.func == fi.qualname]
+    ok = len(app) == 1 and len(app[0].loops) == 1 and len(app[0].args) == 1 and T.call_name(app[0].args[0]) == "rex.utils.to_networkx_graph"
+    if ok:
+        l = r.loops[app[0].loops[0]]
+        g_ep = app[0].args[0][2][0] if app[0].args[0][2] else T.NONE
+        el = ("elem", l.iter, l.uid)
+        graphs = r.attr("self", "_graphs")
+        ok = (l.iter == graphs and g_ep == el) or (l.iter == T.mk_call("range", [T.mk_call("len", [graphs])]) and g_ep == T.mk_index(graphs, el))
+    reorder = [e for e in r.events if e.kind == "call" and e.func == fi.qualname and (
+        (e.recv == gl and e.name.rsplit(".", 1)[-1] in ("sort", "reverse", "insert", "pop", "remove", "clear", "extend")) or
+        (e.name.rsplit(".", 1)[-1] in ("shuffle",) and gl in e.args))]
+    chk.add(rid, "episode order: the networkx graphs are built per episode, in order, and not reordered", bool(ok) and not reorder,
+            f"self._Gs is filled by {len(app)} append(s){' and then changed by ' + reorder[0].name if reorder else ''}: to_timings pairs entry i with episode i of the windowed graphs", chk.loc(fi, reorder[0].node if reorder else None))
     tt = [e for e in r.events if e.kind == "call" and e.name == "rex.utils.to_timings"]
     ok = len(tt) == 1 and len(tt[0].args) == 5 and tt[0].args[0] == r.attr("self", "_windowed_graphs") and tt[0].args[2] == r.attr("self", "_Gs") and tt[0].args[4] == S("supervisor.name")
     if ok:
